@@ -2852,6 +2852,10 @@ func hijackConnHandler(ctx *RequestCtx, r io.Reader, c net.Conn, s *Server, h Hi
 	if !s.KeepHijackedConns {
 		c.Close()
 		s.releaseHijackConn(hjc)
+	} else if ctx.fbr.c != nil {
+		// With ReduceMemoryUsage the buffered reader of the kept connection
+		// reads through ctx.fbr, so ctx must stay with that connection too.
+		return
 	}
 	s.releaseCtx(ctx)
 }
